@@ -74,6 +74,13 @@ def nullCheckExpr (env : Env) : Node → String
   | .cast i _ _ => i.nullCheckExpr env
   | .stringer i => i.nullCheckExpr env
 
+/-- `isAddressable`: a variable, or a field selected from an addressable struct or through a
+pointer; the result of a call or a conversion is not addressable -/
+def addressable (env : Env) : Node → Bool
+  | .root _ _ => true
+  | .field p _ _ => env.isPtr (p.exprType env) || p.addressable env
+  | _ => false
+
 /-- the loop `for ; root.Parent() != nil; root = root.Parent() {}`.  The builder only ever starts
 it from operand/field/getter nodes; for the wrapper nodes the model walks through the wrapped
 node. -/
@@ -174,6 +181,8 @@ def walkPath : List String → Node → TyId → Option Node
     match env.lookup typ (nameAt seg) with
     | .none => none
     | .method m =>
+      -- `LookupFieldOrMethod(typ, isAddressable(node), …)`: a pointer-receiver method on a value without address
+      if m.needsAddr && !node.addressable env then none else
       if !forGetter seg then none else
       if external && !isExportedName m.name then none else
       match env.parseGetterReturnTypes m with
@@ -227,12 +236,14 @@ def noMatchAt (pos : String) (lhs : Node) (pre : List String) : Outcome Stmt :=
 /-- the argument handed to a converter: the resolved source cast to the parameter type, or — for a
 pointer parameter — to its element type (the call then takes the address) -/
 def convArg (c : FieldConverter) (rhsNode : Node) : Outcome (Option Node × List String) :=
+  if rhsNode.returnsError then .ok (none, []) else   -- a `(value, error)` getter is no argument
   match ctx.castNode c.argTy rhsNode with
   | .ok (some a, w1) => .ok (some a, w1)
   | .ok (none, w1) =>
     if !ctx.env.isPtr c.argTy then .ok (none, w1) else
     match ctx.castNode (ctx.env.derefPtr c.argTy) rhsNode with
-    | .ok (a2, w2) => .ok (a2, w1 ++ w2)
+    | .ok (some a2, w2) => if a2.addressable ctx.env then .ok (some a2, w1 ++ w2) else .ok (none, w1 ++ w2)
+    | .ok (none, w2) => .ok (none, w1 ++ w2)
     | .error e => .error e
     | .panic p => .panic p
   | .error e => .error e
@@ -335,7 +346,11 @@ def candidates (rhsStruct : Node) : List Node :=
   let rt := rhsStruct.exprType env
   if ctx.opts.rule == .name then
     (if ctx.opts.getter then
-      ((env.methodsOf rt).filter env.compliesGetter).map fun m => Node.method rhsStruct m.name m.results
+      -- a getter with a pointer receiver is no candidate on a value that is not addressable (the
+      -- `handler` closure looks it up with `isAddressable(rhsStruct)` and returns without a change)
+      ((env.methodsOf rt).filter fun m =>
+          env.compliesGetter m && !(m.ptrRecv && !env.isPtr rt && !rhsStruct.addressable env)).map
+        fun m => Node.method rhsStruct m.name m.results
      else []) ++
     ((env.fieldsOf rt).map fun f => Node.field rhsStruct f.name f.ty)
   else []
